@@ -404,7 +404,7 @@ class Header(SimpleNamespace):
 
 class FieldStorage:
 
-    _patt = re.compile('(.+?)(=(.+?))?(;|$)')
+    _patt = re.compile('(.+?)(=("[^"]*"|.+?))?(;|$)')
 
     name: str
     value: Optional[str]
